@@ -127,6 +127,8 @@ def build(lid, kind, multiset, ext):
 
 def name_of(ent, lid):
     """entity id -> 'B<i>' / 'X0'"""
+    if not ent.id.startswith((lid + '-', lid + 'x-', lid + 'y-')):
+        return 'FOREIGN:' + ent.id          # an entity of another lexicon of the database
     rest = ent.id[len(lid):]
     if rest.startswith('x-'):
         return 'X' + rest[-1]
